@@ -5,6 +5,7 @@ The changes are never committed in /repo: `git -C /repo apply` ... `git -C /repo
 import json, os, shutil, subprocess, sys
 V = os.path.dirname(os.path.dirname(os.path.abspath(__file__)))
 S = os.path.join(V, "seeded")
+REPO = os.environ.get("VERIF_REPO", "/repo")      # a scratch worktree for regression sweeps that must not disturb /repo; the recorded runs use /repo itself
 
 
 def sh(cmd, **kw):
@@ -31,8 +32,8 @@ def do_run(ids):
     for sid in ids:
         d = os.path.join(S, sid)
         patch = os.path.join(d, "patch.diff")
-        assert sh("git -C /repo status --porcelain -- src Cargo.toml").stdout.strip() == "", "/repo not clean"
-        r = sh("git -C /repo apply %s" % patch)
+        assert sh("git -C %s status --porcelain -- src Cargo.toml" % REPO).stdout.strip() == "", "/repo not clean"
+        r = sh("git -C %s apply %s" % (REPO, patch))
         if r.returncode != 0:
             print(sid, "patch does not apply:", r.stderr[:200])
             continue
@@ -47,14 +48,14 @@ def do_run(ids):
                 if c.returncode != 0:
                     res[p] = {"exit": c.returncode, "violations": keys[:6], "tail": c.stdout.strip().splitlines()[-1][:200] if c.stdout.strip() else c.stderr[-200:]}
         finally:
-            sh("git -C /repo checkout -- .")
+            sh("git -C %s checkout -- ." % REPO)
         meta = json.load(open(os.path.join(d, "meta.json")))
         meta["checks_that_alarm"] = res
         meta["detected"] = any(v["exit"] == 1 for v in res.values())
         meta["detected_by_own_property_check"] = meta["property"] in res and res[meta["property"]]["exit"] == 1
         json.dump(meta, open(os.path.join(d, "meta.json"), "w"), indent=1)
         print(sid, "detected" if meta["detected"] else "MISSED", {k: v["violations"][:2] or v["tail"] for k, v in res.items()})
-    assert sh("git -C /repo status --porcelain -- src Cargo.toml").stdout.strip() == ""
+    assert sh("git -C %s status --porcelain -- src Cargo.toml" % REPO).stdout.strip() == ""
 
 
 if __name__ == "__main__":
